@@ -1,36 +1,22 @@
-//! vf: the verification engines for tokio-rs/bytes (see /verif/DESIGN.md).
-#![allow(clippy::all)]
-#![allow(dead_code)]
-
-mod bufeng;
-mod bufmut;
-mod bufnode;
-mod bufrun;
-mod digest;
-mod fault;
-mod hist;
-mod histrun;
-mod oalloc;
-mod recycle;
-mod tbl;
-mod tbl15;
-mod util;
+//! vf binary: oracle allocator + sub-command dispatch.
+use vf::*;
 
 #[global_allocator]
 static GLOBAL: oalloc::Oracle = oalloc::Oracle;
 
 fn main() {
+    oalloc::set_installed(true);
     let args = util::Args::parse(std::env::args().skip(1));
     let code = match args.pos.first().map(|s| s.as_str()) {
         Some("hist") => histrun::main_hist(&args),
         Some("tbl") => tbl::main_tbl(&args),
-        Some("digest") => digest::main_digest(&args),
         Some("fault") => fault::main_fault(&args),
+        Some("digest") => digest::main_digest(&args),
         Some("recycle") => recycle::main_recycle(&args),
         Some("buf") => bufrun::main_buf(&args),
         Some("bufmut") => bufmut::main_bufmut(&args),
         _ => {
-            eprintln!("usage: vf <hist|buf|tbl|fault|recycle|digest> [--key value]...");
+            eprintln!("usage: vf <hist|buf|bufmut|tbl|fault|recycle|digest> [--key value]...");
             2
         }
     };
